@@ -1,6 +1,10 @@
 ---- MODULE MC_Iface ----
 EXTENDS Iface
 M3 == ("i1" :> {"A", "b", "C"} @@ "i2" :> {"A", "b", "C"} @@ "j1" :> {"Z"})
+M1 == ("i1" :> {"A", "b", "C"})
+M1h == ("i1" :> {"A", "C"})
 M2 == ("i1" :> {"A", "b", "C"} @@ "i2" :> {"A", "b", "C"})
 AllOps == {"Mock", "Reset", "Drop", "GC", "Call"}
+HeldOps == {"Mock", "Held", "Reset", "Call"}
+AllHeldOps == AllOps \cup {"Held"}
 ====
